@@ -30,6 +30,7 @@ PROPS = {
     'C04': ['bind'],
     'C11': ['dispatch'],
     'C12': ['dispatch'],
+    'C15': ['registry'],
     'C05': ['msg'],
     'C06': ['msg'],
 }
